@@ -64,7 +64,11 @@ def build(scn, mon_cls, hist, check_obs=None):
         m.step(w)
     n = len(hist)
     lazy = getattr(mon_cls, 'stateless', False)
+    m.hist, m.n = hist, n
     for i, ev in enumerate(hist):
+        m.i = i
+        if i == n - 1:
+            m.before_last(w, ev)
         w.apply(ev)
         if lazy and i < n - 1:
             continue        # a stateless monitor reads only world tables + the last step's observations
